@@ -76,8 +76,10 @@ Theorem selected_within_both_partial : forall c s o, negotiate c s = Ok o ->
                 (sized_key mc -> st_min_key (sv_set s) <= ct_bits mc <= st_max_key (sv_set s))).
 Proof. exact selected_within_both_partial_pf. Qed.
 
-Theorem selected_within_both_refuted_server_version :
-  exists c s o, negotiate c s = Ok o /\ st_maxV (sv_set s) < vw_version (oc_server o).
+(* the model takes any Settings record; once validate() clips `versions` (flag probed on the tree) such a
+   record can no longer reach a handshake and this refutation is vacuous *)
+Theorem selected_within_both_refuted_server_version : refuted_unless fix_versions_clipped
+  (exists c s o, negotiate c s = Ok o /\ st_maxV (sv_set s) < vw_version (oc_server o)).
 Proof. exact selected_within_both_refuted_server_version_pf. Qed.
 
 (* `refuted_unless flag P`: P holds of the model of the tree as generated, unless the tree already
